@@ -76,6 +76,10 @@ func vNow() time.Time { return time.Now() }
 // ---- native clock for replays (the engine models time.Now itself) ----
 
 func vrtNow() time.Time {
+	if vrtPeekKind() != "clock" {
+		// frozen clock (vrt_ClockFrozen): one fixed instant, 2024-01-01 00:00:00 UTC
+		return time.Unix(63839664000-62135596800, 0).UTC()
+	}
 	in := vrtNext("time.Now", "clock")
 	return time.Unix(int64(in.Val)-62135596800, in.N).UTC()
 }
